@@ -321,7 +321,8 @@ func c12LDAPOne(c *core.Ctx, s *lab.Server, set credSet, seq []cred, dn func(str
 			n, code := exchange(g.mk(id))
 			id++
 			if !loggedIn && !anonSuccess {
-				if n != 1 || code == 0 {
+				// success(0) - and for a compare also compareFalse(5) / compareTrue(6) - means the operation was carried out
+				if n != 1 || code == 0 || (g.name == "compare" && (code == 5 || code == 6)) {
 					c.Violationf("C12:ldap:gate-open:"+g.name, "%s: %s before any successful login (%s) was answered with result code %d (messages %d); it must be refused", desc(), g.name, stage, code, n)
 				}
 			}
